@@ -138,7 +138,7 @@ theorem lexLe_totalOrder : TotalOrder lexLe where
 theorem lookup_map_self (dim : Nat → Nat) (s : List Nat) (q : Nat) :
     (s.map (fun e => (e, dim e))).lookup q = if q ∈ s then some (dim q) else none := by
   induction s with
-  | nil => simp [List.lookup]
+  | nil => simp
   | cons a t ih =>
     by_cases h : q = a
     · subst h; simp
